@@ -321,9 +321,16 @@ func init() {
 				o.MaxWrites = 3000
 				o.MaxSegments = 20
 			}
+			if idx%5 == 4 {
+				// a tight SegmentMaxSize: the limit counts media payload, the stored segment (container
+				// overhead included) may well be larger and must still be served whole
+				o.Profile = "size"
+				o.MaxWrites = 1500
+				return media.Gen(seed, idx, o), muxrun.Options{StopOnWriteErr: true}
+			}
 			return media.Gen(seed, idx, o), muxrun.Options{}
 		},
-		rule:        "general generator, Directory storage in every second case; every listed URI fetched when first listed and whenever the playlist text changes; non-trivial = >= 3 published segments",
+		rule:        "general generator (every fifth case: small SegmentMaxSize, payloads straddling the limit), Directory storage in every second case; every listed URI fetched when first listed and whenever the playlist text changes; non-trivial = >= 3 published segments",
 		assumptions: stdAssumptions(),
 		floors:      map[string]int{"C05.disk_refetched": 50, "C05.expired_probed": 50, "C05.parts_concat_checked": 20},
 	})
